@@ -98,7 +98,10 @@ def gen_flash_session(rng, page, regions, wild):
     r = rng.random()
     if r < 0.5:
         ops += ["cp 05", "out", "endflash", "out"]
-    elif r < 0.7:
+    if not wild:
+        # a well behaved client waits for the progress reports of all pages before the next procedure
+        ops += ["endflash", "out", "out"] * 2
+    if 0.4 < r < 0.7:
         ops += ["cp 04", "out"]
     if wild:
         pump(rng, ops, 3)
